@@ -1,2 +1,385 @@
-// Package c11 will hold the check for property C11.
+// Package c11 decides C11: a crash at any point of a file-store update leaves every mailbox
+// readable.  The file store keeps all its state on disk and every operation builds a fresh mbox
+// object that re-reads the index, so the directory tree as it stands at an instant IS the
+// post-crash state had the process died at that instant.  Crash states are produced three ways:
+//
+//	(A) in-process: at every `file.fs` hook the store directory is copied; partial states a real
+//	    death can leave between two hooks are synthesised from those copies (prefixes of the file
+//	    being written, prefixes of permutations of what os.RemoveAll deletes, partially made or
+//	    removed parent directories);
+//	(B) real death at a hook: a victim process SIGKILLs itself at the n-th hook, for every n;
+//	(C) real death inside library calls: a victim process under strace is SIGKILLed before its
+//	    N-th write/openat/unlinkat/renameat/mkdirat, for every N the operation performs.
+//
+// Every crash state is judged by a fresh Store opened on it (oracle.go).
 package c11
+
+import (
+	"fmt"
+	"os"
+	"path/filepath"
+	"sort"
+	"strings"
+	"sync"
+	"time"
+
+	"github.com/inbucket/inbucket/v3/pkg/config"
+	"github.com/inbucket/inbucket/v3/pkg/extension"
+	"github.com/inbucket/inbucket/v3/pkg/storage"
+	"github.com/inbucket/inbucket/v3/pkg/verifhook"
+
+	"verifharness/internal/fw"
+	"verifharness/internal/sut"
+)
+
+var kinds = []string{"add-new", "add-existing", "add-cap-evict", "add-cap1", "add-cap-multi", "mark-seen",
+	"remove-middle", "remove-last", "purge-1", "purge-3", "purge-10", "retention"}
+
+var hookSteps = []string{"add.create-raw", "add.raw-closed", "index.create-tmp", "index.before-rename",
+	"index.renamed", "remove.raw", "rmdir.index", "rmdir.removeall", "rmdir.parents", "mkdir"}
+
+func init() {
+	if os.Getenv(victimEnv) != "" {
+		victimMain() // never returns
+	}
+	fw.Register(&fw.Prop{
+		ID:    "C11",
+		Level: "fault_enumeration",
+		Rule: "cases = 12 operation kinds (add to new / existing mailbox, add with cap eviction of 1, cap=1 eviction emptying the mailbox, " +
+			"multi-message cap eviction after a cap reduction, mark-seen, remove middle, remove last, purge of 1/3/10, real retention scan " +
+			"removing via RemoveMessage) x 8 (quick) / 40 (thorough) seeded histories: 0-12 random ops on target + bucket-sharing neighbour " +
+			"(same 3 or 6 hex digits of the name hash) + third mailbox, then fix-up ops for the kind; bodies <4 KiB, 4-20 KiB, >64 KiB; a " +
+			"60-75 message target (index > 4 KiB) in a third of the eligible cases; five reader shapes for the body under test. Histories " +
+			"are SAMPLED, so the run as a whole is not exhaustive. Enumerated COMPLETELY per case: (A) every file.fs hook point the " +
+			"operation passes (tree copied at the hook); (B) a real self-SIGKILL in a separate process at every n-th hook (quick: first 6 " +
+			"histories per kind, thorough: all); (C) a real SIGKILL via strace before every N-th write/openat/unlinkat/renameat/mkdirat (and " +
+			"pwrite64/open/creat/unlink/rmdir/rename/renameat2/mkdir/truncate/ftruncate where used) executed between the start and end " +
+			"markers, N from a dry run (quick: first 3 histories per kind, thorough: first 24; above 96 calls of one name an even sample of " +
+			"96). SAMPLED between hooks: prefixes of the file being written at 0, 1, 4096k-1, 4096k, 4096k+1, len-1 and 7 evenly spaced " +
+			"lengths; for os.RemoveAll every distinct removed-set along name order, reverse, index-first, index-last and 4 seeded " +
+			"permutations (all prefixes up to 16 entries, 14 prefixes above); partially made / removed parent directories. Oracle per crash " +
+			"state: fresh file Store on the tree; VisitMailboxes and GetMessages succeed and agree; bystander mailboxes equal the model " +
+			"(ids, order, metadata, seen, content); target listing equals a state reachable by completing a prefix of the operation's " +
+			"logical steps (pre, evicted-j / removed-j, post); every listed message's Source() yields exactly Size() bytes equal to what " +
+			"was stored; then AddMessage to the target succeeds and is listed and readable with the survivors (cap applied). A case is " +
+			"non-trivial when >=3 crash states were judged; distinct by (kind, big index, body class, reader shape, neighbour level, " +
+			"neighbour present, set of hook steps reached).",
+		Assumptions: []string{
+			"process death only (SIGKILL): completed write(2)/rename(2)/unlink(2) calls persist in order; power-loss reordering is out of scope",
+			"the on-disk tree at an instant is the post-crash state: the file store caches nothing across operations (each call builds a new mbox and re-reads index.gob)",
+			"orphan .raw files, empty directories and a leftover index.gob.tmp are invisible to readers and not judged",
+			"an add that triggers cap eviction may be observed after any number of its evictions (each eviction is its own logical step)",
+			"partial write(2) of a regular file is modelled at page granularity only in the synthesised states; strace kills land on syscall boundaries",
+		},
+		MinObs: minObs,
+		// Generous: the check is bound by file-system metadata operations and process spawns,
+		// both of which slow down a lot on a loaded machine.
+		ChildTimeout: func(tier string) time.Duration {
+			if tier == "thorough" {
+				return 120 * time.Minute
+			}
+			return 25 * time.Minute
+		},
+		Run: run,
+	})
+}
+
+// mustReach lists, per kind, the hook steps a healthy run of that kind always passes.
+var mustReach = map[string]string{
+	"add-new":       "mkdir add.create-raw add.raw-closed index.create-tmp index.before-rename index.renamed",
+	"add-existing":  "add.create-raw add.raw-closed index.create-tmp index.before-rename index.renamed",
+	"add-cap-evict": "remove.raw add.create-raw add.raw-closed index.create-tmp index.before-rename index.renamed",
+	"add-cap1":      "rmdir.index rmdir.removeall rmdir.parents mkdir add.create-raw add.raw-closed index.create-tmp index.before-rename index.renamed",
+	"add-cap-multi": "remove.raw add.create-raw add.raw-closed index.create-tmp index.before-rename index.renamed",
+	"mark-seen":     "index.create-tmp index.before-rename index.renamed",
+	"remove-middle": "index.create-tmp index.before-rename index.renamed remove.raw",
+	"remove-last":   "rmdir.index rmdir.removeall rmdir.parents",
+	"purge-1":       "rmdir.index rmdir.removeall rmdir.parents",
+	"purge-3":       "rmdir.index rmdir.removeall rmdir.parents",
+	"purge-10":      "rmdir.index rmdir.removeall rmdir.parents",
+	"retention":     "index.create-tmp index.before-rename index.renamed remove.raw rmdir.index rmdir.removeall rmdir.parents",
+}
+
+func minObs(tier string) map[string]int64 {
+	m := map[string]int64{"crash_states_hook": 300, "crash_states_synth": 500, "crash_states_selfkill": 100,
+		"add_body_gt64k": 1, "add_body_4k_64k": 1, "big_index_cases": 3,
+		"index_gt_4096_bytes": 3, "neighbour_level2_cases": 3}
+	if tier == "thorough" {
+		m["crash_states_hook"] = 3000
+		m["crash_states_synth"] = 5000
+		m["crash_states_selfkill"] = 1000
+	}
+	for _, s := range hookSteps {
+		m["step:"+s] = 1
+	}
+	for _, k := range kinds {
+		m["states:"+k] = 20
+		for _, s := range strings.Fields(mustReach[k]) {
+			m["pair:"+k+"/"+s] = 1
+		}
+	}
+	if straceUsable() {
+		m["crash_states_strace"] = 200
+		m["strace_kills_in_op"] = 150
+		if tier == "thorough" {
+			m["crash_states_strace"] = 3000
+			m["strace_kills_in_op"] = 2500
+			for _, k := range kinds {
+				m["strace_states:"+k] = 20
+			}
+		}
+	}
+	return m
+}
+
+func run(c *fw.Ctx) {
+	perKind := c.N(8, 40)
+	n := len(kinds) * perKind
+	c.Cases("crash", n, func(i int, r *fw.Rand) {
+		k := &caseRun{c: c, r: r, idx: i, kind: kinds[i%len(kinds)], variant: i / len(kinds)}
+		k.run()
+	})
+}
+
+// caseRun is one (kind, history) case.
+type caseRun struct {
+	c       *fw.Ctx
+	r       *fw.Rand
+	idx     int
+	kind    string
+	variant int
+
+	scratch string
+	fast    string
+	dir     string // live store directory
+	hist    storage.Store
+	model   map[string][]*mmsg
+	nHist   int
+	histLog []string
+
+	target, neigh, other string
+	neighLevel           int
+	cap                  int
+	bigIndex             bool
+	op                   *opSpec
+	recovery             *msgSpec
+	exp                  *expect
+
+	stepsSeen map[string]bool
+	nStates   int
+	nHooks    int
+	indexMax  int64
+}
+
+func (k *caseRun) summary() string {
+	return fmt.Sprintf("kind=%s target=%s neigh=%s(l%d,%d msgs) other=%s(%d msgs) cap=%d hist=%d pre=%d", k.kind, k.target,
+		k.neigh, k.neighLevel, len(k.model[k.neigh]), k.other, len(k.model[k.other]), k.cap, k.nHist, len(k.model[k.target]))
+}
+
+func (k *caseRun) newStore(dir string, cap int) storage.Store {
+	st, err := sut.NewStore("file", config.Storage{Type: "file", Params: map[string]string{"path": dir},
+		MailboxMsgCap: cap}, extension.NewHost())
+	if err != nil {
+		panic(fmt.Sprintf("c11: cannot open file store on %s: %v", dir, err))
+	}
+	return st
+}
+
+func (k *caseRun) run() {
+	c := k.c
+	k.scratch = c.TempDir("c11-")
+	defer os.RemoveAll(k.scratch)
+	// The live store and the part (A) snapshots go to a memory file system when there is one (the
+	// thousands of tree copies are metadata-bound on a disk file system).  The victims of parts
+	// (B) and (C) stay on the regular scratch file system, whose readdir order is hash-based.
+	k.fast = fastScratch(k.scratch)
+	defer os.RemoveAll(k.fast)
+	k.dir = filepath.Join(k.fast, "live")
+	must(os.MkdirAll(k.dir, 0o770))
+	k.model = map[string][]*mmsg{}
+	k.stepsSeen = map[string]bool{}
+	k.hist = k.newStore(k.dir, 0)
+
+	if err := k.generate(); err != nil {
+		c.Count("history_failed", 1)
+		c.Inconclusive("preceding history could not be built: " + err.Error())
+		return
+	}
+	k.exp = k.buildExpect()
+
+	// Which real-death parts run for this case.
+	doKill := true
+	doStrace := straceUsable()
+	if c.Quick() {
+		// quick: strace on the first three histories of every kind, self-kill on the first six.
+		doStrace = doStrace && k.variant < 3
+		doKill = k.variant < 6
+	} else {
+		doStrace = doStrace && k.variant < 24
+	}
+	pre := ""
+	if doKill || doStrace {
+		pre = filepath.Join(k.scratch, "pre")
+		must(copyTree(k.dir, pre))
+	}
+	if !straceUsable() {
+		c.Count("strace_unavailable", 1)
+		c.Note("strace is not usable here (not installed or ptrace denied): part (C) skipped, parts (A) and (B) ran")
+	}
+
+	// Part (A).
+	opErr := k.partA()
+	if opErr != nil {
+		c.Count("op_failed_in_process", 1)
+		c.Inconclusive(fmt.Sprintf("operation under test failed without any crash (%s): %v", k.summary(), opErr))
+		return
+	}
+	// The completed operation is a crash point too (death right after the call returned).
+	k.judgeCopy(k.dir, "completed", "after the operation returned", "final")
+
+	// Parts (B) and (C).
+	if doKill {
+		k.partB(pre)
+	}
+	if doStrace {
+		k.partC(pre)
+	}
+
+	c.Count("cases:"+k.kind, 1)
+	if k.bigIndex {
+		c.Count("big_index_cases", 1)
+	}
+	if k.indexMax > 4096 {
+		c.Count("index_gt_4096_bytes", 1)
+	}
+	if k.neighLevel == 2 {
+		c.Count("neighbour_level2_cases", 1)
+	}
+	if len(k.model[k.neigh]) > 0 {
+		c.Count("neighbour_present_cases", 1)
+	}
+	c.Max("max_states_one_case", int64(k.nStates))
+	var steps []string
+	for s := range k.stepsSeen {
+		steps = append(steps, s)
+		c.Count("pair:"+k.kind+"/"+s, 1)
+	}
+	sort.Strings(steps)
+	if k.nStates >= 3 {
+		bodyClass, reader := "-", -1
+		if k.op.Msg != nil {
+			bodyClass, reader = sizeClass(k.op.Msg.BodyLen), k.op.Reader
+		}
+		c.NonTrivial(fmt.Sprintf("%s|big=%v|body=%s|rd=%d|nl=%d|np=%v|%s", k.kind, k.bigIndex, bodyClass, reader,
+			k.neighLevel, len(k.model[k.neigh]) > 0, strings.Join(steps, ",")))
+	}
+	c.Sample(map[string]any{"case": k.summary(), "op": k.op.brief(), "crash_states": k.nStates, "hooks": k.nHooks,
+		"steps": steps, "candidates": k.exp.candNames()})
+}
+
+// partA runs the operation in-process with the snapshotting hook installed.
+func (k *caseRun) partA() error {
+	opStore := k.newStore(k.dir, k.cap)
+	busy := false
+	var prevStep, prevPath string
+	verifhook.Set(func(site string, args ...string) {
+		if site != "file.fs" || busy || len(args) < 2 {
+			return
+		}
+		busy = true
+		defer func() { busy = false }()
+		step, path := args[0], args[1]
+		k.nHooks++
+		k.stepsSeen[step] = true
+		k.c.Count("step:"+step, 1)
+		if strings.HasSuffix(path, "index.gob") || strings.HasSuffix(path, "index.gob.tmp") {
+			if fi, err := os.Stat(path); err == nil && fi.Size() > k.indexMax {
+				k.indexMax = fi.Size()
+			}
+		}
+		// The state exactly at the hook.
+		k.judgeCopy(k.dir, "hook:"+step, fmt.Sprintf("at hook #%d %s (%s)", k.nHooks, step, k.rel(path)), "hook")
+		// States between the previous hook and this one.
+		if strings.Contains(prevStep, "create") {
+			k.synthPrefixes(prevStep, prevPath)
+		}
+		switch step {
+		case "rmdir.removeall":
+			k.synthRemoveAll(path)
+		case "rmdir.parents":
+			k.synthParents(path)
+		case "mkdir":
+			k.synthMkdir(path)
+		}
+		prevStep, prevPath = step, path
+	})
+	defer verifhook.Set(nil)
+	_, err := execOp(opStore, k.op)
+	return err
+}
+
+func (k *caseRun) rel(path string) string {
+	if r, err := filepath.Rel(k.dir, path); err == nil {
+		return r
+	}
+	return path
+}
+
+// judgeCopy copies src to a scratch directory, lets mutate (if any) derive the crash state, and
+// judges it.
+func (k *caseRun) judgeCopy(src, site, what, origin string, mutate ...func(dir string) error) {
+	snap := filepath.Join(k.fast, "snap")
+	_ = os.RemoveAll(snap)
+	must(copyTree(src, snap))
+	for _, m := range mutate {
+		if err := m(snap); err != nil {
+			panic(fmt.Sprintf("c11: cannot synthesise crash state (%s): %v", what, err))
+		}
+	}
+	k.judge(snap, site, what, origin)
+	_ = os.RemoveAll(snap)
+}
+
+var shmSweep sync.Once
+
+// fastScratch returns a fresh directory on /dev/shm, or under fallback when that is unusable.
+// Directories left behind by dead processes of earlier runs are swept once per process.
+func fastScratch(fallback string) string {
+	const root = "/dev/shm"
+	shmSweep.Do(func() {
+		old, _ := filepath.Glob(filepath.Join(root, "verif-c11-*"))
+		for _, d := range old {
+			parts := strings.Split(filepath.Base(d), "-")
+			if len(parts) < 3 {
+				continue
+			}
+			if _, err := os.Stat("/proc/" + parts[2]); os.IsNotExist(err) {
+				_ = os.RemoveAll(d)
+			}
+		}
+	})
+	if d, err := os.MkdirTemp(root, fmt.Sprintf("verif-c11-%d-", os.Getpid())); err == nil {
+		return d
+	}
+	d := filepath.Join(fallback, "fast")
+	must(os.MkdirAll(d, 0o770))
+	return d
+}
+
+func must(err error) {
+	if err != nil {
+		panic("c11: " + err.Error())
+	}
+}
+
+func sizeClass(n int) string {
+	switch {
+	case n > 65536:
+		return ">64k"
+	case n > 4096:
+		return "4k-64k"
+	case n == 4096:
+		return "=4096"
+	}
+	return "<4k"
+}
